@@ -27,7 +27,7 @@ class C19(Prop):
     pid = "C19"
     pkg = "hcore"
     binname = "c19"
-    quick_cases = 2400
+    quick_cases = 2000
     thorough_cases = 20000
     shard = 150
     rule = ("random histories (1..45 ops, plus occasional bursts of 65..140 records into one histogram to cross bucket "
@@ -39,12 +39,13 @@ class C19(Prop):
             "without unit; counter values incl. wrap at 2^64 and absolutes below/above the current value; snapshots "
             "taken on the main thread or on the recorder's own thread; a case is non-trivial if some snapshot has at "
             "least one entry; distinct = distinct (history, outputs). Plus 6 (thorough: 72) free-running stress rounds "
-            "STRESS <threads> <histograms> <values per thread> <paced snapshots>, see level_note")
+            "STRESS <threads> <histograms> <values per thread> <paced snapshots> and 8 (thorough: 48) registration-race rounds "
+            "REGRACE <threads> <fresh keys> <concurrent snapshots>, see level_note")
     design_ref = "DESIGN.md 4 C19"
     technique = ("Coq proof: refinement of a map-based model of DebuggingRecorder/Snapshotter to declarative per-metric "
                  "functions of the history, for all histories over two recorder instances; differential correspondence "
                  "against the real DebuggingRecorder installed with with_local_recorder on harness threads; free-running multi-threaded stress "
-                 "(record vs snapshot) judged by exactly-once / bounded-loss")
+                 "(record vs snapshot; concurrent first registration of the same key vs update vs snapshot) judged by exactly-once / bounded-loss / exact totals")
     level_text = ("Theorems (Coq, all histories of describe/register/update/snapshot operations over two recorder instances, any keys, "
                   "labels, values): the model of DebuggingRecorder (seen/metadata IndexMaps, one registry map per kind keyed by key "
                   "equality class, atomics, bucket as a bag) produces exactly the snapshots given by declarative functions of the "
@@ -61,8 +62,15 @@ class C19(Prop):
                   "final counter/gauge is always a violation; values never shown are tolerated only up to recorder threads x histograms x "
                   "snapshots taken during recording, which is what the open finding C05-late-claim (bucket.rs) can explain, and are then printed "
                   "as the known finding C19-concurrent-drain-inherits-C05-late-claim; losses above that bound are a violation (a non-atomic "
-                  "data()+clear() drain loses thousands per round against bounds of 21..306). The stress engine samples schedules, it proves "
-                  "nothing. Key equality is modelled as equality of (name, sorted labels); that this is what Key::eq/Hash compute is C03's "
+                  "data()+clear() drain loses thousands per round against bounds of 21..306). A second free-running engine races REGISTRATION: "
+                  "2-4 threads released together by a spin barrier perform the first registration of the same fresh key (3000 keys per round, "
+                  "counter/gauge/histogram in rotation, each thread building the key its own way or using the macros) and update through the handle "
+                  "they were given, with snapshots after the join and, in half of the rounds, also during the rounds; every completed update must be "
+                  "shown: counters and gauges exactly (nothing excused), histogram values exactly once with no loss excused when no snapshot ran "
+                  "concurrently and at most threads x concurrent snapshots otherwise; plus listing, first-registration order and monotone counters. "
+                  "The proof-side fact this rests on is C06's theorem (Registry::get_or_create_* hands every caller the one storage per kind and key, "
+                  "for every schedule); the model here takes it as its registry abstraction and this engine is its test-side tie through "
+                  "DebuggingRecorder. Both stress engines sample schedules, they prove nothing. Key equality is modelled as equality of (name, sorted labels); that this is what Key::eq/Hash compute is C03's "
                   "theorem and is exercised here only for keys whose label names are distinct (or that have at most two labels). The order of "
                   "histogram values inside one snapshot is not modelled (bag comparison).")
     assumptions = [
@@ -111,6 +119,54 @@ class C19(Prop):
             bad.append("gauge shows %s after concurrent increments summing to %s" % (f["gauge"], f["gauge_expect"]))
         return [b for b in bad if b], (g["lost"] if g["lost"] <= bound else 0), g
 
+    REGRACE_ROUNDS = [(4, 3000, 0), (4, 3000, 20), (2, 3000, 0), (3, 3000, 15), (4, 3000, 0), (3, 3000, 0),
+                      (4, 3000, 10), (2, 3000, 12)]
+
+    @staticmethod
+    def judge_regrace(line):
+        """-> (violations, within_bound_histogram_losses, fields).  Registration race: every thread is handed a handle
+        by register_* for the same fresh key and updates through it; every completed update must be shown.
+        Counters and gauges: nothing is excused (final value = sum of all threads' updates, exactly).
+        Histograms: no value twice, none invented; with no snapshot concurrent to the recording (csnaps=0)
+        no loss at all is excused; with concurrent snapshots the inherited C05-late-claim can explain at
+        most threads x snapshots taken during the rounds (the barrier keeps all threads on ONE key at a
+        time and a snapshot drains each bucket once, so per snapshot only the bucket of the round in
+        progress can have pushes in flight, one per thread)."""
+        if not line.startswith("regrace threads="):
+            return ["registration-race driver failed: " + line[:300]], 0, {}
+        f = dict(kv.split("=", 1) for kv in line.split()[1:])
+        g = {k: int(v) for k, v in f.items() if v.lstrip("-").isdigit()}
+        T = g["threads"]
+        bad = []
+        if g["counters_bad"] > 0:
+            bad.append("%d counter(s) registered by %d threads at once do not show the sum of the increments made through the "
+                       "handles register_counter returned (examples %s)" % (g["counters_bad"], T, f["ex"]))
+        if g["gauges_bad"] > 0:
+            bad.append("%d gauge(s) registered by %d threads at once do not show the sum of the increments made through the "
+                       "handles register_gauge returned (examples %s)" % (g["gauges_bad"], T, f["ex"]))
+        if g["missing"] > 0 or g["listed_twice"] > 0:
+            bad.append("%d registered key(s) have no entry and %d have two in the snapshot taken after all threads finished"
+                       % (g["missing"], g["listed_twice"]))
+        if g["order_bad"] > 0:
+            bad.append("%d adjacent entries are not in first-registration order (rounds are barrier-separated)" % g["order_bad"])
+        if g["prefix_missing"] > 0:
+            bad.append("%d key(s) whose registration had completed before a concurrent snapshot began were not listed by it (%s)"
+                       % (g["prefix_missing"], f["ex"]))
+        if g["regress"] > 0:
+            bad.append("%d counter reading(s) lower than in an earlier snapshot or above the final total (%s)" % (g["regress"], f["ex"]))
+        if g["hist_dups"] > 0:
+            bad.append("%d histogram value(s) shown more than once" % g["hist_dups"])
+        if g["hist_invented"] > 0:
+            bad.append("%d value(s)/entries shown that were never recorded/registered" % g["hist_invented"])
+        if g["never_empty"] > 0:
+            bad.append("histograms still yield values (%d) in the 6th snapshot after all threads stopped" % g["never_empty"])
+        bound = T * g["snaps_during"]
+        if g["hist_lost"] > bound:
+            bad.append("%d of %d values recorded through handles returned by concurrent first registrations of a histogram were never "
+                       "shown by any snapshot; the inherited C05-late-claim window explains at most %d (= %d threads x %d snapshots "
+                       "taken while the rounds ran) (examples %s)" % (g["hist_lost"], g["hist_values"], bound, T, g["snaps_during"], f["ex"]))
+        return bad, (g["hist_lost"] if g["hist_lost"] <= bound else 0), g
+
     def extra_checks(self, ctx):
         """free-running stress (real threads, no scheduler): recorder threads record distinct tagged values
         into the histograms of one DebuggingRecorder while the main thread snapshots; judged by the
@@ -141,16 +197,44 @@ class C19(Prop):
         cov["losses_within_late_claim_bound"] = within
         cov["stress_rounds_with_fewer_than_10_concurrent_snapshots"] = under
         cov["stress_results"] = outs[:3]
-        if within and not viols:
+        # ---- second engine: registration racing registration / update / snapshot
+        reps2 = 1 if ctx["tier"] == "quick" else 6
+        lines2 = ["REGRACE %d %d %d" % r for _ in range(reps2) for r in self.REGRACE_ROUNDS]
+        rc2, outs2, err2 = run_impl(ctx["binpath"], lines2, timeout=1800)
+        if rc2 != 0 or len(outs2) != len(lines2):
+            return [("stress", "registration-race driver failed (rc=%s, %d lines for %d rounds)" % (rc2, len(outs2), len(lines2)),
+                     dict(command="echo '%s' | .cache/target/release/c19" % lines2[0], stderr=err2[-500:]))]
+        rviols, rwithin, rkeys, rsnaps = [], 0, 0, 0
+        for ln, o in zip(lines2, outs2):
+            bad, w, g = self.judge_regrace(o)
+            rwithin += w
+            rkeys += g.get("keys", 0)
+            rsnaps += g.get("snaps_during", 0)
+            for b in bad:
+                rviols.append((ln, o, b))
+        cov["regrace_rounds"] = len(lines2)
+        cov["regrace_keys_first_registered_concurrently"] = rkeys
+        cov["regrace_snapshots_during_registration"] = rsnaps
+        cov["regrace_histogram_losses_within_late_claim_bound"] = rwithin
+        cov["regrace_results"] = outs2[:2]
+        if (within or rwithin) and not viols and not rviols:
             print("KNOWN-FINDING: property=C19 C19-concurrent-drain-inherits-C05-late-claim (concurrent record vs snapshot: inherits "
                   "C05-late-claim, bounded by recorders x drains; %d of %d values recorded during %d concurrent snapshots were never shown, "
-                  "worst round %d, every round within its bound; no duplicates)" % (within, recorded, drains, worst))
+                  "worst round %d, every round within its bound; registration-race rounds: %d histogram value(s) within their bound; "
+                  "no duplicates)" % (within, recorded, drains, worst, rwithin))
         if viols:
             ln, o, b = viols[0]
             return [("stress", "free-running stress of DebuggingRecorder (recorder threads recording while the main thread snapshots) "
                      "violated the property: " + b,
                      dict(command="echo '%s' | .cache/target/release/c19" % ln, observed=[v[1] for v in viols[:5]],
                           judged=[v[2] for v in viols[:5]]))]
+        if rviols:
+            ln, o, b = rviols[0]
+            return [("stress", "registration race on one DebuggingRecorder (threads released together perform the first registration of the "
+                     "same fresh key and update through the handle they were given; snapshots after and during) violated the property: " + b,
+                     dict(command="echo '%s' | .cache/target/release/c19" % ln, observed=[v[1] for v in rviols[:5]],
+                          judged=[v[2] for v in rviols[:5]],
+                          note="rests on C06 (get_or_create hands every caller the one storage per key, every schedule); this engine is its test-side tie through DebuggingRecorder"))]
         return []
 
     # ------------------------------------------------------------------ generator
